@@ -85,6 +85,23 @@ func raceScenario(w *World, p *Plan, rec *Record) {
 		}
 	})
 	k++
+	start("peer-table", k, func(r *prng) {
+		// peers come and go (validly signed announcements and discoveries) while gossip is being processed
+		for j := 0; j < 6+r.Intn(8); j++ {
+			pw := newWalletFrom(newPRNG(p.Seed ^ uint64(0xABC0+j%3)))
+			url := fmt.Sprintf("sim://peer%d", j%3)
+			at := uint64(simrt.Now())
+			digest, sig := pw.Sign(gossip.VerifConnectionData(pw.Address(), url, at))
+			cd := &pb.ConnectionData{PublicAddress: pw.Address(), Url: url, CreatedAt: at, Digest: digest[:], Signature: sig}
+			if r.Chance(0.5) {
+				n.Goss.Server().Announce(ctx, cd)
+			} else {
+				n.Goss.Server().Discover(ctx, cd)
+			}
+			simrt.SleepFor(time.Duration(r.Intn(500)) * time.Millisecond)
+		}
+	})
+	k++
 	nread := 1 + r0.Intn(3)
 	for i := 0; i < nread; i++ {
 		start(fmt.Sprintf("reader%d", i), k, func(r *prng) {
@@ -197,6 +214,9 @@ func parseRaceLog(text string) []raceReport {
 		for _, fs := range frames {
 			site, file := "", ""
 			for _, f := range fs {
+				if strings.HasPrefix(f[0], "verif.local/simrt.Entries") || strings.HasPrefix(f[0], "verif.local/simrt.IfaceKeys") {
+					continue // the shim reads the repository's map on behalf of the range statement above it
+				}
 				if strings.Contains(f[0], "bartossh/Computantis/src/") || strings.Contains(f[0], "heimdalr/dag") || strings.HasPrefix(f[0], "verif.local/") {
 					site, file = f[0], f[1]
 					break
